@@ -92,6 +92,7 @@ func newSegment(path string, baseOffset, maxBytes int64, isNew bool, suffix stri
 	if err != nil {
 		return nil, errors.Wrap(err, "open file failed")
 	}
+	crashPoint("segment.new.log")
 	info, err := log.Stat()
 	if err != nil {
 		return nil, errors.Wrap(err, "stat file failed")
@@ -101,6 +102,7 @@ func newSegment(path string, baseOffset, maxBytes int64, isNew bool, suffix stri
 	s.writer = log
 	s.reader = log
 	err = s.setupIndex()
+	crashPoint("segment.new.index")
 	return s, err
 }
 
@@ -281,6 +283,7 @@ func (s *segment) seal() {
 	// Notify any readers waiting for data.
 	s.notifyWaiters()
 	s.Index.Shrink() // nolint: errcheck
+	crashPoint("segment.seal.shrink")
 }
 
 func (s *segment) NextOffset() int64 {
@@ -336,6 +339,7 @@ func (s *segment) WriteMessageSet(ms []byte, entries []*entry) error {
 	if _, err := s.write(ms, entries); err != nil {
 		return err
 	}
+	crashPoint("segment.write.log")
 	return s.Index.writeEntries(entries)
 }
 
@@ -473,9 +477,11 @@ func (s *segment) Replace(old *segment) error {
 	if err := os.Rename(s.logPath(), old.logPath()); err != nil {
 		return err
 	}
+	crashPoint("segment.replace.log-renamed")
 	if err := os.Rename(s.indexPath(), old.indexPath()); err != nil {
 		return err
 	}
+	crashPoint("segment.replace.index-renamed")
 	s.suffix = ""
 	log, err := os.OpenFile(s.logPath(), os.O_RDWR|os.O_CREATE|os.O_APPEND, 0644)
 	if err != nil {
@@ -582,11 +588,13 @@ func (s *segment) Delete() error {
 			return err
 		}
 	}
+	crashPoint("segment.delete.log")
 	if exists(s.Index.Name()) {
 		if err := os.Remove(s.Index.Name()); err != nil {
 			return err
 		}
 	}
+	crashPoint("segment.delete.index")
 	return nil
 }
 
